@@ -31,7 +31,7 @@ def configs(tier):
         import random
         rnd = random.Random(4)
         all4 = ["".join(s) for s in itertools.product("XYZ", repeat=4)]
-        strings += rnd.sample(all4, 20)
+        strings += rnd.sample(all4, 8)         # 4-site strings cost minutes each (layout and element-type obligations included)
         strings += ["H", "HX", "ZH", "YHZ", "HYX", "XHZY"]
     for s in strings:
         out.append({"mode": "symbolic", "basis": s})
